@@ -519,3 +519,212 @@ def parse_session_reply(rep):
     for k, entries in rep[2]:
         files[k] = {n.decode(): b for n, b in entries}
     return outs, files
+
+
+# ------------------------------------------------------------------ sessions in which the info file is replaced
+def info_for(ds, triples):
+    """info with the two scales SCALE_KEYS, scale i sharded with triples[i] = (m, s, p)."""
+    info = mkinfo(ds["sizes"], ds["cs"], *triples[0], ds["ie"], ds["de"], key=SCALE_KEYS[0])
+    second = mkinfo(ds["sizes"], ds["cs"], *triples[1], ds["ie"], ds["de"], key=SCALE_KEYS[1])
+    info["scales"].append(second["scales"][0])
+    return info
+
+
+def impl_info_session(R, ds, steps, strategy, name, fetch=()):
+    """One ShardedFileAccessor that is never handed an info object: the info
+    FILE is written through accessor.store_file("info", ..., overwrite=True)
+    (what get_IO_for_new_dataset(..., overwrite_info=True) does), possibly
+    several times.  steps: ("i", [triple0, triple1]) / ("s", k, x, y, z, payload) /
+    ("c",).  fetch: (k, (cx, cy, cz)) chunks to read afterwards through a FRESH
+    accessor.  Returns (outcomes, {k: {file: bytes}}, fetch outcomes)."""
+    try:
+        with watchdog(10.0):
+            return _impl_info_session(R, ds, steps, strategy, name, fetch)
+    except ImplHang:
+        _note_hang(R, "session with a replaced info file", ds)
+        return [["Hang"]], {}, []
+
+
+def _impl_info_session(R, ds, steps, strategy, name, fetch):
+    import numpy as np
+    from neuroglancer_scripts import sharded_file_accessor as sfa
+    d = os.path.join(R.tmp, name)
+    outs = []
+    with quiet(R.tmp), np.errstate(all="ignore"):
+        kw = {} if strategy is None else {"strategy": strategy}
+        acc = sfa.ShardedFileAccessor(d, **kw)
+        for op in steps:
+            if op[0] == "i":
+                o = outcome_of(acc.store_file, "info", json.dumps(info_for(ds, op[1])).encode(), overwrite=True)
+                if o[0] != "ok":
+                    raise RuntimeError(f"could not write the info file: {o}")
+                continue
+            if op[0] == "c":
+                o = outcome_of(acc.close)
+            else:
+                _, k, x, y, z, pl = op
+                o = outcome_of(acc.store_chunk, pl, SCALE_KEYS[k], bbox(ds["cs"], x, y, z))
+            outs.append(["ok", "none"] if o[0] == "ok" else o)
+        atexit.unregister(acc.close)
+        files = {}
+        for i, key in enumerate(SCALE_KEYS):
+            f = _read_dir(os.path.join(d, key))
+            if f:
+                files[i] = f
+        fetched = []
+        if fetch:
+            acc2 = sfa.ShardedFileAccessor(d)
+            cs = ds["cs"]
+            for k, c in fetch:
+                fetched.append(outcome_of(lambda: bytes(acc2.fetch_chunk(
+                    SCALE_KEYS[k], bbox(cs, c[0] * cs, c[1] * cs, c[2] * cs)))))
+            atexit.unregister(acc2.close)
+    shutil.rmtree(d, ignore_errors=True)
+    return outs, files, fetched
+
+
+def info_session_request(ds, steps, orc):
+    for o in steps:
+        if o[0] == "s" and ds["de"] == "gzip":
+            orc.add_comp(o[5])
+
+    def scales(triples):
+        return [[i, [ds["cs"]] * 3, ds["sizes"], *triples[i]] for i in range(len(SCALE_KEYS))]
+    wire = []
+    for o in steps:
+        if o[0] == "c":
+            wire.append(Atom("c"))
+        elif o[0] == "i":
+            wire.append([Atom("i"), scales(o[1])])
+        else:
+            wire.append([Atom("s"), o[1], o[2], o[3], o[4], o[5]])
+    return ("c04_session", lambda t: [cfg_of(ds), t, [], wire], orc, "comp")
+
+
+def gen_info_session(rng, ds):
+    """scale 0 written under info v1, the info replaced by v2 (other sharding
+    parameters for scale 1 only, of which nothing was written yet), scale 1
+    written, close.  Returns (steps, final triples, {k: ops})."""
+    t0 = (ds["m"], ds["s"], ds["p"])
+    small = [(m, s, p) for m in range(4) for s in range(4) for p in range(4)]
+    t1_old = rng.choice(small)
+    t1_new = rng.choice([t for t in small if t != t1_old])
+    opsA = order_ops(ds, rng, rng.choice(["sorted", "random", "reversed"]))
+    opsB = order_ops(ds, rng, "random")
+    st = lambda k, o: ("s", k, o[0], o[1], o[2], o[3])
+    variant = rng.choice(["after-store", "after-store", "after-close", "before-any-store"])
+    if variant == "before-any-store":
+        steps = [("i", [t0, t1_old]), ("i", [t0, t1_new])] + [st(0, o) for o in opsA] + [st(1, o) for o in opsB] + [("c",)]
+    else:
+        steps = [("i", [t0, t1_old])] + [st(0, o) for o in opsA]
+        if variant == "after-close":
+            steps.append(("c",))
+        steps += [("i", [t0, t1_new])] + [st(1, o) for o in opsB] + [("c",)]
+    return steps, [t0, t1_new], {0: opsA, 1: opsB}, variant
+
+
+def run_info_sessions(R, n, prop, base=5000):
+    """Sessions on ONE accessor during which the info file is replaced.
+    Correspondence with the model (c04_session with info steps); oracle for
+    C04: the extracted specification reader and WF, with the parameters of the
+    info file ON DISK, on the files the implementation wrote; for C05: a fresh
+    accessor returns every stored chunk."""
+    rng = R.rng
+    todo = []
+    for i in range(n):
+        ds = gen_dataset(rng, base + i)
+        steps, final, kops, variant = gen_info_session(rng, ds)
+        g, cs = ds["grid"], ds["cs"]
+        stored = {}
+        for k, ops in kops.items():
+            for (x, y, z, pl) in ops:
+                stored[(k, (x // cs, y // cs, z // cs))] = pl
+        todo.append((ds, steps, final, variant, stored, rng.choice(["in memory", "on disk"])))
+    judge_info_sessions(R, todo, prop, f"isess{prop}_{base}")
+
+
+def replay_info_session(R, case, prop):
+    """Re-run one recorded info session; True iff it still fails."""
+    def unb(v):
+        return bytes.fromhex(v[1:]) if isinstance(v, str) else bytes(v)
+    ds = {k: case[k] for k in ("grid", "cs", "sizes", "m", "s", "p", "ie", "de")}
+    steps = []
+    for o in case["steps"]:
+        if o[0] == "i":
+            steps.append(("i", [tuple(t) for t in o[1]]))
+        elif o[0] == "c":
+            steps.append(("c",))
+        else:
+            steps.append(("s", o[1], o[2], o[3], o[4], unb(o[5])))
+    cs = ds["cs"]
+    stored = {(o[1], (o[2] // cs, o[3] // cs, o[4] // cs)): o[5] for o in steps if o[0] == "s"}
+    final = [tuple(t) for t in case["final_triples"]]
+    before = (len(R.violations), len(R.disagreements))
+    try:
+        judge_info_sessions(R, [(ds, steps, final, case.get("variant", "replay"), stored, case.get("strategy"))],
+                            prop, "isess_replay")
+    except (ImplAbort, ImplHang):
+        return True
+    return (len(R.violations), len(R.disagreements)) != before
+
+
+def judge_info_sessions(R, todo, prop, prefix):
+    impl = [impl_info_session(R, ds, steps, strat, f"{prefix}_{i}",
+                              fetch=sorted(stored) if prop == "C05" else ())
+            for i, (ds, steps, final, variant, stored, strat) in enumerate(todo)]
+    reps = oracle_batch(R, [info_session_request(ds, steps, Oracle()) for ds, steps, _, _, _, _ in todo])
+    oreqs, ometa = [], []
+    for j, ((ds, steps, final, variant, stored, strat), (outs, files, fetched), rep) in enumerate(zip(todo, impl, reps)):
+        case = {k: ds[k] for k in ("grid", "cs", "sizes", "m", "s", "p", "ie", "de")}
+        case.update(stream="info-sessions", variant=variant, strategy=strat, final_triples=[list(t) for t in final],
+                    steps=[list(o) if o[0] != "i" else ["i", [list(t) for t in o[1]]] for o in steps])
+        R.case(case, nontrivial=True)
+        R.count(f"info-session:{variant}")
+        m_outs, m_files = parse_session_reply(rep)
+        if outs != m_outs:
+            R.disagree("info session: per-operation outcomes", case, outs, m_outs)
+        if files != m_files:
+            R.disagree("info session: files of the two scales", case,
+                       {k: sorted(v) for k, v in files.items()}, {k: sorted(v) for k, v in m_files.items()})
+        if any(o[0] != "ok" for o in outs):
+            R.violation("a store or close() raised in a session whose info file was replaced before the scale "
+                        "was first written", case, {"outcomes": [o for o in outs if o[0] != "ok"][:3]})
+        if prop == "C05":
+            for (k, c), got in zip(sorted(stored), fetched):
+                R.count("info-session:fetch:" + ("exact" if got == ["ok", stored[(k, c)]] else got[0]))
+                if got != ["ok", stored[(k, c)]]:
+                    R.violation("after the info file was replaced, a fresh accessor does not return a chunk of the "
+                                "scale written afterwards", dict(case, scale=k, chunk=list(c)),
+                                {"got": got, "stored": stored[(k, c)]})
+        else:
+            for k in (0, 1):
+                ids = sorted((ref_cmc(ds["grid"], c), c) for (kk, c) in stored if kk == k)
+                if not ids:
+                    continue
+                m, s_, p = final[k]
+                cfg = [m, s_, p, ds["ie"] == "gzip", ds["de"] == "gzip"]
+                fa = files_arg(files.get(k, {}))
+                orc = Oracle()
+                oreqs.append(("c04_spec_fetch", (lambda t, cfg=cfg, fa=fa, q=[i for i, _ in ids]: [cfg, t, fa, q]), orc, "decomp"))
+                oreqs.append(("c04_wf", (lambda t, cfg=cfg, fa=fa: [cfg, t, fa]), orc, "decomp"))
+                ometa.append((case, k, ids, stored, files.get(k, {}), final[k], ds))
+    oreps = oracle_batch(R, oreqs)
+    for q, (case, k, ids, stored, kfiles, (m, s_, p), ds) in enumerate(ometa):
+        srep, wrep = oreps[2 * q], oreps[2 * q + 1]
+        for (cid, c), rep in zip(ids, srep):
+            got = spec_reply(rep)
+            second = py_spec_fetch(kfiles, m, s_, p, ds["ie"], ds["de"], cid)
+            want = ("found", stored[(k, c)])
+            R.count("info-session:spec:" + ("found" if got == want else str(got)[:12]))
+            if got != second:
+                R.violation("extracted spec_fetch and the Python specification reader disagree (harness self-check)",
+                            case, {"id": cid, "extracted": got, "python": second})
+            elif got != want:
+                R.violation("stored chunk not retrievable by the specification reader that takes the sharding "
+                            "parameters from the info file on disk", dict(case, scale=k, chunk=list(c), id=cid),
+                            {"spec_fetch": got, "stored": stored[(k, c)], "parameters_on_disk": [m, s_, p]})
+        for name, parse_ok, slot_ok, disj_ok in wrep:
+            if not (parse_ok == "true" and slot_ok == "true" and disj_ok == "true"):
+                R.violation("shard file violates the layout predicates under the parameters of the info file on disk",
+                            dict(case, scale=k), {"file": name.decode(), "parse": str(parse_ok), "slot": str(slot_ok),
+                                                  "disjoint": str(disj_ok)})
